@@ -126,7 +126,8 @@ def run(prog, rep):
             raise AnalysisError("RDFReader.%s vanished" % mname)
         rep.saw_function(pf0)
         px0 = Expander(pf0, inline=prog)
-        for e0 in effect_calls(prog, pf0, lambda c: isinstance(c.func, ast.Attribute) and c.func.attr in ("parse_section", "parse_property") and len(c.args) == 1):
+        for e0 in effect_calls(prog, pf0, lambda c: isinstance(c.func, ast.Attribute) and c.func.attr in ("parse_section", "parse_property") and len(c.args) == 1,
+                               expanded=True):
             n_child += 1
             arg = e0.call.args[0]
             t0 = unparse(arg)
@@ -141,6 +142,16 @@ def run(prog, rep):
                             gens = [g0 for g0 in comp.generators if isinstance(g0.target, ast.Name) and g0.target.id == e0.raw.args[0].id]
                             if len(gens) == 1 and not gens[0].ifs:
                                 core, _ = strip_order_keeping(e0.x.expand(gens[0].iter, e0.inner))
+            if isinstance(core, ast.Call) and not (isinstance(core.func, ast.Attribute) and core.func.attr == "objects"):
+                # the query wrapped in a private helper (`self._objects_of(uri, predicate)` = list(self.graph.objects(...)))
+                from ..symtext import _is_private_helper_call, expression_of
+                try:
+                    hh = _is_private_helper_call(e0.func, core)
+                    he = expression_of(hh) if hh is not None else None
+                except Exception:
+                    he = None
+                if he is not None:
+                    core, _ = strip_order_keeping(he)
             whole = isinstance(core, ast.Call) and isinstance(core.func, ast.Attribute) and core.func.attr == "objects"
             rep.check(whole, "READ-2", "%s: %s(%s)" % (mname, e0.call.func.attr, t0[:40]), "every object of the predicate",
                       "%s imports children from `%s`, which is not the complete graph.objects(...) result: linked nodes can be skipped silently"
@@ -169,12 +180,30 @@ def run(prog, rep):
     cn = sd.params[2]
     name_ok = any(isinstance(n, ast.Assign) and unparse(n.targets[0]) == cn and dx.text(n.value) == "URIRef(ODML_NS + str(%s.id))" % sd.params[1]
                   for n in walk_no_nested(sd.node))
+    # the same choice written as an expression bound to a second local: `node = curr_node if curr_node else URIRef(ODML_NS + str(doc.id))`
+    own_nodes = {}
+    for sf0 in (W.lookup_method(SAVE[k0]) for k0 in ("Document", "Section", "Property")):
+        own_nodes[sf0.qualname] = set([sf0.params[2]])
+    fresh_t = "URIRef(ODML_NS + str(%s.id))" % sd.params[1]
+    for n in walk_no_nested(sd.node):
+        if isinstance(n, ast.Assign) and len(n.targets) == 1 and isinstance(n.targets[0], ast.Name) and n.targets[0].id != cn:
+            v = n.value
+            cases = None
+            if isinstance(v, ast.IfExp) and unparse(v.test) == cn:
+                cases = (unparse(v.body), dx.text(v.orelse))
+            elif isinstance(v, ast.BoolOp) and isinstance(v.op, ast.Or) and len(v.values) == 2 and unparse(v.values[0]) == cn:
+                cases = (cn, dx.text(v.values[1]))
+            if cases == (cn, fresh_t):
+                name_ok = True
+                own_nodes[sd.qualname].add(n.targets[0].id)
+                own_nodes[sd.qualname].add(dx.text(v))
     rep.check(name_ok, "PROV-7", "save_document names the node by the document id", "ok", "the Document node is not URIRef(ODML_NS + str(doc.id))", sd.where,
               witness="two exports of one document give different nodes / ids are lost on import")
     dtr = triples(prog, sd)
     for want, what in (((cn, "RDF.type", "URIRef(%s.format().rdf_type)" % sd.params[1]), "typed as odml:Document"),
                        (("%s.hub_root" % me, "ODML_NS.hasDocument", cn), "linked from the Hub")):
-        nodes = [t[3] for t in dtr if t[:3] == want]
+        alts = [tuple(o1 if x == cn else x for x in want) for o1 in own_nodes[sd.qualname]]
+        nodes = [t[3] for t in dtr if t[:3] in alts]
         ok = len(nodes) == 1 and all(g.dominates(nodes[0], p) for _, p in g.exit.pred)
         rep.check(ok, "PROV-7", "save_document: node %s on every path" % what, "ok", "the Document node is not %s on every path" % what, sd.where,
                   witness="an exported document is missing from the import (not reachable from the Hub)")
@@ -196,12 +225,12 @@ def run(prog, rep):
         for s0, p0, o0, node, wf in triples(prog, sf):
             if ".rdf_map(" in p0:
                 n_attr += 1
-                rep.check(s0 == node_param, "PROV-7", "%s attaches attributes to its own node" % sf.name, "ok",
+                rep.check(s0 in own_nodes.get(sf.qualname, set([node_param])), "PROV-7", "%s attaches attributes to its own node" % sf.name, "ok",
                           "%s adds an attribute triple with subject %s instead of %s" % (sf.name, s0, node_param), where(sf, node.ast),
                           witness="attributes of one object appear on another node")
         rep.floor("PROV-7", n_attr, 1, "attribute triples in %s" % sf.short)
         for c, node, wf in effect_calls(prog, sf, lambda c, me=me: call_name(c) in tuple("%s.%s" % (me, x) for x in ("save_odml_list", "save_odml_values", "save_repository_node"))):
-            rep.check(unparse(c.args[0]) == node_param, "PROV-7", "%s: %s under its own node" % (sf.name, call_name(c).split(".")[-1]), "ok",
+            rep.check(unparse(c.args[0]) in own_nodes.get(sf.qualname, set([node_param])), "PROV-7", "%s: %s under its own node" % (sf.name, call_name(c).split(".")[-1]), "ok",
                       "%s passes %s as parent node" % (sf.name, unparse(c.args[0])), where(sf, node.ast))
 
     # ---------------------------------------------------------------- PAIR-2
